@@ -1,6 +1,26 @@
 # Per-property configuration of ./check: which Lean module holds the property theorems, which harness
 # components tie the model to /repo and search for failing inputs, and what the evidence should say.
 PROPS = {
+    "C01": dict(
+        level="other",
+        module="GM.Props.C01",
+        claim="Partial, by design. Kernel-checked: for every goldmark component inside the Lean model - the renderer and all node renderers, kind "
+              "dispatch, the AST mutators and Walk, the buffered write path with failing writers, heading-id probing, Reader/BlockReader and their "
+              "helper loops, the inline driver loop for contract-abiding parsers, line recognisers - the model's explicit panic and fuel-exhaustion "
+              "outcomes are unreachable on EVERY input under the guard the code runs them with (17 theorems collected from the owning packages); "
+              "the util transformers are total definitions with justified recursion. Searched, not proved: the composition through the block "
+              "parsers and the concrete inline parsers, by Convert and Parse+Render over exhaustive short strings and mutated corpora under the "
+              "configuration lattice with panic recovery and a per-input watchdog. A theorem cannot reach stack depth or running time.",
+        note="Trusted: Lean kernel (+ propext, Classical.choice, Quot.sound); the correspondence checks that tie each model to its Go code (they are "
+             "run by the owning properties' checks); the watchdog bound (200x the median of same-size inputs, floor 2 s). Block parsers and concrete "
+             "inline parsers are not yet inside the proved model.",
+        technique="Lean 4 no-panic / termination theorems over the models of the components + exhaustive and random search with watchdog on the whole pipeline",
+        components=["total"],
+        explanation="Proved per modelled component for all inputs (see theorem list); searched: every string of length <= 3 over a 22-symbol and <= 4 "
+                    "over an 11-symbol Markdown-significant alphabet under 4 extreme configurations, mutated/generated/adversarial/long/deep documents under "
+                    "the full lattice, both API paths, panic recovery, watchdog.",
+        assumptions=["the per-component correspondences hold (checked by the owning properties)", "a hang is a run exceeding the watchdog bound"],
+    ),
     "C19": dict(
         level="proof",
         module="GM.Props.C19",
